@@ -192,3 +192,29 @@ func H_self_inherited() {
 	}
 	symx.Reach("end")
 }
+
+// H_scope_instance_method: self::m() / static::m() written inside an instance method, where m is an
+// INSTANCE method: the call runs m on the current object, self:: choosing the definition of the class
+// the call is written in and static:: that of the object's class (parent::m() is covered by H_parent_chain).
+func H_scope_instance_method() {
+	kw := symx.Choose("kw", 2)
+	src := "class A { function who() { return 1; } function t() { return " + []string{"self", "static"}[kw] + "::who(); } }\nclass B extends A { function who() { return 2; } }\n$b = new B(); emit($b->t()); $a = new A(); emit($a->t());"
+	s := sx.Compile(src)
+	symx.Assert(s.Err == nil, "declarations parse")
+	if s.Err != nil {
+		return
+	}
+	_, ctl := s.Run()
+	// recorded finding: self:: / static:: only look among STATIC methods; naming an instance method raises an error
+	const id = "C08-scope-call-of-instance-method"
+	symx.AssertKnown(ctl == nil, "self:: / static:: call of an instance method runs", true, id)
+	if ctl != nil {
+		return
+	}
+	want := []int{1, 1}
+	if kw == 1 {
+		want = []int{2, 1}
+	}
+	symx.AssertKnown(len(sx.Log) == 2 && sx.Log[0].Kind == 'i' && sx.Log[0].I == want[0] && sx.Log[1].Kind == 'i' && sx.Log[1].I == want[1], "self:: binds to the defining class, static:: to the runtime class (instance method)", true, id)
+	symx.Reach("end")
+}
